@@ -27,6 +27,8 @@ class MultiFrameData:
         self._check_type(frame, FrameItem)
         self._check_type(data, SourceDataWrapper)
         self._check_type(chunk_size, int, type(None))
+        if chunk_size is not None and chunk_size < 1:
+            raise ValueError(f"Chunk size must be a positive number of rows; got {chunk_size}")
 
         frame_channel_names = tuple(c.name for c in frame.channels.value)
         data_channel_names = data.dtype.names
